@@ -161,6 +161,18 @@ func cmdRun(args []string) int {
 	s := pool.Explore(entry, explore.Options{MaxPaths: *maxPaths, Validate: *validate, Verbose: c.verbose})
 	fmt.Printf("load %.1fs init %.1fs explore %.1fs\n", tLoad.Seconds(), tInit.Seconds(), s.WallS)
 	printSummary(s)
+	if c.debug {
+		for k, smp := range s.Samples {
+			if k >= 2 {
+				break
+			}
+			if obs, ok := smp["observed"].([]string); ok {
+				for _, o := range obs {
+					fmt.Println("  OBSERVED", strings.ReplaceAll(o, "\\n", "\n      "))
+				}
+			}
+		}
+	}
 	if *validate > 0 && len(s.ValCases) > 0 {
 		r, err := nativeValidate(env, *pkg, *fn, params, nil, s.ValCases)
 		if err != nil {
